@@ -1,13 +1,22 @@
 import SqlcModel.Driver.Generate
 import SqlcModel.Gen.Untranslatable
+import SqlcModel.Config.Validate
+import SqlcModel.Gen.ValidationFacts
 /-
 C12 — Generation is all-or-nothing with a truthful exit status.
 For ANY list of packages and ANY placement of failing packages, given the loop shape read off the
 current source (`genFacts`, regenerated).
+
+"A package of the configuration is in error" includes the configuration itself: `Config/Validate.lean` models
+v2ParseConfig's checks; `C12_config_accepted_iff` / `C12_config_fault_rejected` show that a fault in ANY gen
+target of ANY entry rejects the configuration, `validation_sites` ties the model to the control skeleton of
+the validation functions as the translator reads it off the source (every `return` with the guards above it),
+and the correspondence stream runs config.ParseConfig next to the model on structured configurations (verdict
+and error class must agree).
 -/
 set_option linter.unusedSimpArgs false
 namespace Sqlc.C12
-open Sqlc.Drv
+open Sqlc.Drv Sqlc.Cfg.V2
 
 /-- O1: the loop of the current source has the shape the property needs: both failure branches set
 `errored`, the gate follows the loop and returns (nil, error), output is only written on the success
@@ -118,6 +127,153 @@ theorem C12 (pkgs : List PkgOutcome) :
 example : generate genFacts [.ok [("a/db.go", "x")], .genFail, .ok [("b/db.go", "y")]] = (none, 1) := by decide
 example : generate genFacts [.ok [("a/db.go", "x")], .ok [("b/db.go", "y")]] =
     (some [("a/db.go", "x"), ("b/db.go", "y")], 0) := by decide
+
+/-! ### configuration validation (version 2) -/
+
+/-- the control skeleton of v2ParseConfig as audited: one return per check, every per-entry check inside
+`range conf.SQL` and under the guard of ITS OWN gen target only, no return between the targets of an entry -/
+def expectedV2Paths : List (List String × String) := [
+  (["if err := dec.Decode(&conf); err != nil"], "conf, err"),
+  (["if conf.Version == \"\""], "conf, ErrMissingVersion"),
+  (["if conf.Version != \"2\""], "conf, ErrUnknownVersion"),
+  (["if len(conf.SQL) == 0"], "conf, ErrNoPackages"),
+  (["if err := conf.validateGlobalOverrides(); err != nil"], "conf, err"),
+  (["if conf.Gen.Go != nil", "range conf.Gen.Go.Overrides", "if err := conf.Gen.Go.Overrides[i].Parse(); err != nil"], "conf, err"),
+  (["range conf.SQL", "if conf.SQL[j].Engine == \"\""], "conf, ErrMissingEngine"),
+  (["range conf.SQL", "switch conf.SQL[j].Engine default"], "conf, ErrUnknownEngine"),
+  (["range conf.SQL", "if conf.SQL[j].Gen.Go != nil", "if conf.SQL[j].Gen.Go.Out == \"\""], "conf, ErrNoPackagePath"),
+  (["range conf.SQL", "if conf.SQL[j].Gen.Go != nil", "range conf.SQL[j].Gen.Go.Overrides", "if err := conf.SQL[j].Gen.Go.Overrides[i].Parse(); err != nil"], "conf, err"),
+  (["range conf.SQL", "if conf.SQL[j].Gen.Kotlin != nil", "if conf.SQL[j].Gen.Kotlin.Out == \"\""], "conf, ErrKotlinNoOutPath"),
+  (["range conf.SQL", "if conf.SQL[j].Gen.Kotlin != nil", "if conf.SQL[j].Gen.Kotlin.Package == \"\""], "conf, ErrNoPackageName"),
+  (["range conf.SQL", "if conf.SQL[j].Gen.Python != nil", "range conf.SQL[j].Gen.Python.Overrides", "if err := conf.SQL[j].Gen.Python.Overrides[i].Parse(); err != nil"], "conf, err"),
+  ([], "conf, nil")]
+
+def expectedV1Paths : List (List String × String) := [
+  (["if err := dec.Decode(&settings); err != nil"], "config, err"),
+  (["if settings.Version == \"\""], "config, ErrMissingVersion"),
+  (["if settings.Version != \"1\""], "config, ErrUnknownVersion"),
+  (["if len(settings.Packages) == 0"], "config, ErrNoPackages"),
+  (["if err := settings.ValidateGlobalOverrides(); err != nil"], "config, err"),
+  (["range settings.Overrides", "if err := settings.Overrides[i].Parse(); err != nil"], "config, err"),
+  (["range settings.Packages", "if settings.Packages[j].Path == \"\""], "config, ErrNoPackagePath"),
+  (["range settings.Packages", "range settings.Packages[j].Overrides", "if err := settings.Packages[j].Overrides[i].Parse(); err != nil"], "config, err"),
+  (["range settings.Packages", "switch settings.Packages[j].Engine default"], "config, ErrUnknownEngine"),
+  ([], "settings.Translate(), nil")]
+
+/-- O2 (regenerated): the validation functions of the current source have the audited skeletons -/
+theorem validation_sites : Gen.v2ParsePaths = expectedV2Paths ∧ Gen.v1ParsePaths = expectedV1Paths ∧
+    Gen.parseConfigPaths.length = 5 ∧ Gen.overrideParsePaths.length = 6 := by decide
+
+theorem checkGo_none_iff (g : Option GoT) :
+    checkGo g = none ↔ goOk g = true := by
+  cases g with
+  | none => simp [checkGo, goOk]
+  | some g =>
+    unfold checkGo goOk
+    by_cases h1 : g.out = "" <;> by_cases h2 : g.overridesOk = true <;> simp [h1, h2]
+
+theorem checkKotlin_none_iff (k : Option KtT) :
+    checkKotlin k = none ↔ kotlinOk k = true := by
+  cases k with
+  | none => simp [checkKotlin, kotlinOk]
+  | some k =>
+    unfold checkKotlin kotlinOk
+    by_cases h1 : k.out = "" <;> by_cases h2 : k.pkg = "" <;> simp [h1, h2]
+
+theorem checkPython_none_iff (p : Option PyT) :
+    checkPython p = none ↔ pythonOk p = true := by
+  cases p with
+  | none => simp [checkPython, pythonOk]
+  | some p =>
+    unfold checkPython pythonOk
+    by_cases h2 : p.overridesOk = true <;> simp [h2]
+
+theorem validateEntry_none_iff (e : Entry) : validateEntry e = none ↔ entryOk e = true := by
+  unfold validateEntry entryOk
+  simp only [Bool.and_eq_true]
+  rw [← checkGo_none_iff, ← checkKotlin_none_iff, ← checkPython_none_iff]
+  by_cases h1 : e.engine = ""
+  · simp [h1]
+  by_cases h2 : e.engine ∈ knownEngines
+  · cases hg : checkGo e.go with
+    | some x => simp [h1, h2]
+    | none =>
+      cases hk : checkKotlin e.kotlin with
+      | some x => simp [h1, h2]
+      | none => simp [h1, h2]
+  · simp [h1, h2]
+
+theorem validateEntries_none_iff : ∀ (es : List Entry), validateEntries es = none ↔ ∀ e ∈ es, entryOk e = true
+  | [] => by simp [validateEntries]
+  | e :: es => by
+    unfold validateEntries
+    cases h : validateEntry e with
+    | some x =>
+      have : ¬ entryOk e = true := fun hk => by rw [(validateEntry_none_iff e).mpr hk] at h; cases h
+      simp [this]
+    | none =>
+      have hk := (validateEntry_none_iff e).mp h
+      simp [hk, validateEntries_none_iff es]
+
+/-- **C12 (configuration).** A version-2 configuration is accepted iff its header is in order and EVERY gen
+target of EVERY entry is; so a fault in any target of any entry — the second target of an entry, the last
+entry of the list — rejects the whole configuration before anything is compiled or written. -/
+theorem C12_config_accepted_iff (c : Conf) :
+    parse c = none ↔
+      (c.version = "2" ∧ c.entries ≠ [] ∧
+       ¬ (c.hasGlobalGo = true ∧ usesMultipleEngines c.entries = true ∧ c.globalUntagged = true) ∧
+       ¬ (c.hasGlobalGo = true ∧ c.globalOverridesOk = false) ∧
+       ∀ e ∈ c.entries, entryOk e = true) := by
+  unfold parse
+  by_cases hv0 : (c.version == "") = true
+  · rw [if_pos hv0]
+    have : c.version = "" := by simpa using hv0
+    simp [this]
+  rw [if_neg hv0]
+  by_cases hv : (c.version != "2") = true
+  · rw [if_pos hv]
+    have : ¬ c.version = "2" := by simpa using hv
+    simp [this]
+  rw [if_neg hv]
+  have hv2 : c.version = "2" := by simpa using hv
+  by_cases he : c.entries.isEmpty = true
+  · rw [if_pos he]
+    have : c.entries = [] := by simpa using he
+    simp [this]
+  rw [if_neg he]
+  have he2 : c.entries ≠ [] := by simpa using he
+  by_cases hg : (c.hasGlobalGo && usesMultipleEngines c.entries && c.globalUntagged) = true
+  · rw [if_pos hg]
+    have : c.hasGlobalGo = true ∧ usesMultipleEngines c.entries = true ∧ c.globalUntagged = true := by
+      simpa [Bool.and_eq_true, and_assoc] using hg
+    simp [this]
+  rw [if_neg hg]
+  have hg2 : ¬ (c.hasGlobalGo = true ∧ usesMultipleEngines c.entries = true ∧ c.globalUntagged = true) := by
+    intro h; apply hg; simp [h.1, h.2.1, h.2.2]
+  by_cases ho : (c.hasGlobalGo && !c.globalOverridesOk) = true
+  · rw [if_pos ho]
+    have : c.hasGlobalGo = true ∧ c.globalOverridesOk = false := by simpa using ho
+    simp [this]
+  rw [if_neg ho]
+  have ho2 : ¬ (c.hasGlobalGo = true ∧ c.globalOverridesOk = false) := by
+    intro h; apply ho; simp [h.1, h.2]
+  rw [validateEntries_none_iff]
+  exact ⟨fun h => ⟨hv2, he2, hg2, ho2, h⟩, fun h => h.2.2.2.2⟩
+
+theorem C12_config_fault_rejected (c : Conf) (e : Entry) (he : e ∈ c.entries) (hf : entryOk e = false) :
+    (parse c).isSome = true := by
+  cases h : parse c with
+  | some _ => rfl
+  | none =>
+    have := ((C12_config_accepted_iff c).mp h).2.2.2.2 e he
+    rw [hf] at this; cases this
+
+/-- non-vacuity: a two-target entry whose SECOND target is at fault, behind a fine entry -/
+def wFine : Entry := ⟨"postgresql", some ⟨"db", "db", true⟩, none, none⟩
+def wSecondTargetBad : Entry := ⟨"postgresql", some ⟨"db2", "db2", true⟩, some ⟨"kt", ""⟩, none⟩
+def wAllTargets : Entry := ⟨"postgresql", some ⟨"db", "db", true⟩, some ⟨"kt", "p"⟩, some ⟨true⟩⟩
+example : parse ⟨"2", false, false, true, [wFine, wSecondTargetBad]⟩ = some .noPackageName := by decide
+example : parse ⟨"2", false, false, true, [wAllTargets]⟩ = none := by decide
 
 theorem translator_complete : Gen.untranslatable = [] := by decide
 
